@@ -430,7 +430,7 @@ def coq_out(item, kind):
             return "[" + "; ".join(zk(k) for k, _ in a) + "]"
         return "[" + "; ".join(f"({zk(k)}, {v})" for k, v in a) + "]"
     if mode == "ok":
-        return f"Ok {ops(adds)} {ret}"
+        return f"Ok {ops(adds)} {ret}" if ret >= 0 else f"Ok {ops(adds)} ({ret})"
     if mode == "after":
         return f"RaiseAfter {ops(adds[:cut])}"
     return "RaiseBefore"
@@ -763,19 +763,29 @@ def eval_real(ctx, suite, r, spec, items, universe, cfg, bm, env):
 
 
 # ----------------------------------------------------------------------------- layer 2: real runs
+_launch_counter = [0]
+
+
 def launch_real(ctx, tag, spec, timeout):
     """start `python par_common.py real spec out` in the background; returns a handle"""
     import subprocess
-    spec_p = os.path.join(ctx.dir, f"real_{tag}_spec.json")
-    out_p = os.path.join(ctx.dir, f"real_{tag}_out.json")
-    spec = dict(spec, trace_path=os.path.join(ctx.dir, f"real_{tag}_trace.txt"),
-                die_flag=os.path.join(ctx.dir, f"real_{tag}_died.txt"))
+    _launch_counter[0] += 1
+    tag_f = f"{tag}_{_launch_counter[0]}"          # run() may be entered twice (second search): fresh files
+    spec_p = os.path.join(ctx.dir, f"real_{tag_f}_spec.json")
+    out_p = os.path.join(ctx.dir, f"real_{tag_f}_out.json")
+    spec = dict(spec, trace_path=os.path.join(ctx.dir, f"real_{tag_f}_trace.txt"),
+                die_flag=os.path.join(ctx.dir, f"real_{tag_f}_died.txt"))
+    for f in (out_p, spec["trace_path"], spec["die_flag"]):
+        try:
+            os.remove(f)
+        except OSError:
+            pass
     with open(spec_p, "w") as f:
         json.dump(spec, f)
     env = dict(os.environ)
     env["PYTHONPATH"] = os.pathsep.join([HERE, env.get("PYTHONPATH", "/repo")])
     env["VERIF_REAL_HARD_TIMEOUT"] = str(timeout)
-    log = open(os.path.join(ctx.dir, f"real_{tag}.log"), "w")
+    log = open(os.path.join(ctx.dir, f"real_{tag_f}.log"), "w")
     p = subprocess.Popen([sys.executable, os.path.join(HERE, "par_common.py"), "real", spec_p, out_p],
                          stdout=log, stderr=subprocess.STDOUT, env=env, start_new_session=True)
     return {"tag": tag, "proc": p, "out": out_p, "spec": spec, "t0": time.time(), "timeout": timeout, "log": log}
